@@ -354,4 +354,5 @@ add("C09", "scipy transform overwrites its input", "nifty/cl/ducc_dispatch.py", 
 add("C09", "codomain refused only if every axis mismatches", "nifty/cl/domains/rg_space.py", "        if not np.all(abs(np.array(self.shape) *\n                          np.array(self.distances) *\n                          np.array(codomain.distances)-1) < 1e-7):", "        if np.all(abs(np.array(self.shape) *\n                          np.array(self.distances) *\n                          np.array(codomain.distances)-1) >= 1e-7):", "R09.11")
 add("C33", "unstack counts along the first axis", "nifty/re/tree_math/forest_math.py", "    element_count = tree_leaves(stack)[0].shape[axis]", "    element_count = tree_leaves(stack)[0].shape[0]", "R33.5")
 add("C33", "where ignores the condition's structure", "nifty/re/tree_math/vector_math.py", "    ts_max = (ts_c, ts_x, ts_y)[\n        np.argmax([ts_c.num_nodes, ts_x.num_nodes, ts_y.num_nodes])\n    ]", "    ts_max = ts_x if ts_x.num_nodes >= ts_y.num_nodes else ts_y", "R33.6")
+add("C33", "mean_and_std squares without the modulus", "nifty/re/tree_math/forest_math.py", "    std = scl * tree_map(jnp.sqrt, mean_of_sq - abs(m) ** 2)", "    std = scl * tree_map(jnp.sqrt, mean_of_sq - m**2)", "R33.7")
 VARIANTS = V
